@@ -72,7 +72,7 @@ Definition ex_empty_rules : node :=
      Sq "!!seq" 4 3 4 [Mp "!!map" 4 5 4 []; Sc "!!null" "~" 5 5 0]]]]].
 
 Example C02_nonvacuous :
-  let f := parse_strict pl0 yes yes yes yes false [] [(ex_empty_rules, 0)] None in
+  let f := parse_strict pl0 yes yes yes yes (fun _ => true) false [] [(ex_empty_rules, 0)] None in
   map (fun e => (has_error e, checks_for_entry (fun _ => ["promql/syntax"]) e,
                  match parse_rule_error e with Ok p => Some (p_first p) | Crash _ => None end)) (read_rules f)
   = [(true, ["yaml/parse"], Some 4); (true, ["yaml/parse"], Some 5)].
